@@ -813,7 +813,7 @@ class MakeEvolvable(EvolvableModule):
             "extra_critic_dims": self.extra_critic_dims,
             "output_vanish": self.output_vanish,
             "init_layers": self.init_layers,
-            "has_conv_layer": self.has_conv_layers,
+            "has_conv_layers": self.has_conv_layers,
             "arch": self.arch,
             "cnn_layer_info": self.cnn_layer_info,
             "mlp_layer_info": self.mlp_layer_info,
@@ -840,6 +840,10 @@ class MakeEvolvable(EvolvableModule):
             self.mlp_output_activation = activation
 
         self.mlp_activation = activation
+
+        # Rebuild the networks with the new activation (keeping the weights), so that the live network
+        # and `init_dict` - from which clones are built - stay in step
+        self.recreate_network()
 
     @mutation(MutationType.LAYER)
     def add_mlp_layer(self) -> None:
